@@ -5,6 +5,8 @@ import traceback
 from dataclasses import dataclass, field
 from typing import Dict, List, Optional
 
+import re
+
 import z3
 
 from . import cxx, frontend
@@ -111,8 +113,30 @@ def row_eq(cols_cpp: Dict[str, object], cols_ref: Dict[str, object]):
 
 
 # ------------------------------------------------------------------ encoding one program
+# statements the per-event function of the templates may end with (frozen): returning success to the framework
+EPILOGUE_OK = (r"return\s+StatusCode::SUCCESS\s*;", r"return\s*;")
+
+
 class Encoded:
     """Both sides of one program over one symbolic event."""
+
+    @staticmethod
+    def _per_event_lines(main):
+        """The WHOLE body of the per-event function: static template text before the query-code slot, the slot's lines, static
+        text after it (comments removed; a final 'return StatusCode::SUCCESS;' is the known epilogue).  Template text that wraps
+        the slot (a try/catch, a condition, extra statements) is therefore part of what is executed symbolically."""
+        ctx = (main.get("__context__") or {}).get("query_code")
+        code = list(main["query_code"])
+        if not ctx:
+            return code
+        pre = cxx.normalize_static(ctx["prefix"])
+        suf_text = ctx["suffix"]
+        for rx in EPILOGUE_OK:
+            suf_text = re.sub(rx + r"\s*$", "", suf_text.rstrip())
+        suf = cxx.normalize_static(suf_text)
+        if not pre and not suf:
+            return code
+        return ["{"] + pre + code + suf + ["}"]
 
     def __init__(self, prog: Program, pkg: Package, N: int, patches=(), member_pre="empty", tag="",
                  event=None, skip_ref=False):
@@ -136,7 +160,7 @@ class Encoded:
         if pkg.backend != "atlas":
             members = [("TTree*", "myTree")] + members
         self.book_ast = cxx.parse_code_lines(main["book_code"])
-        self.query_ast = cxx.parse_code_lines(main["query_code"])
+        self.query_ast = cxx.parse_code_lines(self._per_event_lines(main))
         self.includes = list(main["body_include_files"])
         self.exec = Exec(self.event, dm, members, self.ctx, tag=tag, member_pre=member_pre, patches=patches)
         # booking (constructor / initialize): executed once, concretely guarded
